@@ -40,7 +40,7 @@ lines.append("\n† caught only after the harness was strengthened in response t
 benign = sorted(glob.glob(os.path.join(root, "seeded", "benign", "*", "meta.json")))
 if benign:
     lines.append("\n### 12.2b Independently written property-PRESERVING changes (false-alarm test)\n")
-    lines.append("Written by fresh sub-agents asked for a plausible maintainer change that keeps the property true while visibly changing something internal or unspecified (error wording and moment, buffer sizes and growth, number and size of read / write calls, where blocks are cut, optional codec frame fields, order of header checks ...). Every one of the ten quick checks was run against each; all must stay quiet.\n")
+    lines.append("Written by fresh sub-agents asked for a plausible maintainer change that keeps the property true while visibly changing something internal or unspecified (error wording and moment, buffer sizes and growth, number and size of read / write calls, where blocks are cut, optional codec frame fields, order of header checks ...). Every one of the ten quick checks was run against each change of rounds 1 and 2, the property's own check and the closely related ones against each change of round 3 (long-lived buffers and data-dependent strategies done right); all must stay quiet.\n")
     lines.append("| id | written against | what changes (the property does not speak of it) | checks run | alarms |")
     lines.append("|---|---|---|---|---|")
     for mf in benign:
